@@ -10,7 +10,17 @@ REPO = os.environ.get('VERIF_REPO', '/repo')
 class TranslateError(Exception):
     pass
 
-MODULES = ['numtypes']
+HELPERS = ('__init__', 'pyexpr')      # modules of this package that are not translators
+
+def _modules():
+    """every module of this package that defines generate(repo) is a translator (no central list to
+    keep in step: a property's branch only adds its own file)"""
+    here = os.path.dirname(os.path.abspath(__file__))
+    return sorted(f[:-3] for f in os.listdir(here)
+                  if f.endswith('.py') and f[:-3] not in HELPERS
+                  and 'def generate(' in open(os.path.join(here, f)).read())
+
+MODULES = _modules()
 
 def write_if_changed(path, text):
     try:
